@@ -1,5 +1,6 @@
 import SwiftMT.LayoutImpl
 import SwiftMT.LayoutFacts
+import SwiftMT.Lemmas.RoundTrip
 /-
 C03 — every well-formed message of a supported type is accepted and reproduced exactly.
 
@@ -32,6 +33,20 @@ def mandatoryWithoutMandatoryCall : List (Nat × String) :=
 theorem mandatory_items_have_mandatory_calls : mandatoryWithoutMandatoryCall = [] := by decide +kernel
 
 theorem spec_translated : Generated.LayoutSpec.untranslated = [] := by decide
+
+/-- **Acceptance and exact reproduction at block level, for all messages**: whatever fields a message of a layout
+consists of — any tags, any number of them, repeated or not — if each tag is a field tag (`wfTag`) and each content is in
+a field's canonical spelling (`wfc`: no CR, no line starting with `:` or `-`, no trailing newline, no `-}`), then the
+text block assembled from them (LF or CRLF, with or without terminator) is consumed by the successive
+`extract_field` calls of a parser in duplicates mode: each call returns exactly the content that was written, in order,
+and the completeness check passes.  (Which calls a type's `parse_from_block4` makes is `all_documented_items_reachable`;
+that each field type accepts its own canonical content is C05/C02.) -/
+theorem canonical_block_is_read (pre tail : Text) (hp : pre = [] ∨ pre = ['\r'])
+    (htail : tail = [] ∨ tail = ['\n', '-'] ∨ tail = ['\r', '\n', '-'])
+    (toks : List (Text × Text)) (hne : toks ≠ []) (hwf : ∀ p ∈ toks, wfTag p.1 = true ∧ wfc p.2 = true) (seen : List Text) :
+    ∃ s', readAll ⟨renderFrom (pre ++ ['\n']) tail toks, seen, true⟩ (toks.map (·.1)) = .ok (toks.map (·.2), s') ∧
+      isComplete s' = true :=
+  read_render pre tail hp htail toks _ hne hwf rfl (Or.inl rfl)
 
 /-- Non-vacuity: the walk does report a letter no call can read (MT103 has no 50G). -/
 example : walk (callsOf 103) [⟨"50", ["A", "G"], .m, 0, false⟩] 0 [] = [("50", "G")] := by decide +kernel
